@@ -1,6 +1,6 @@
 (* L6 Syntax — proofs about the parser model: fuel monotonicity, the parser
    returns the tree determined by the (assoc, level) table
-   (prec_determines_tree), print/re-parse round trip. *)
+   (prec_determines_tree). *)
 From Coq Require Import List String Ascii NArith Bool Lia Arith.
 From Omega Require Import L6Syntax.Tokens L6Syntax.Parser L6Syntax.Flatten.
 Import ListNotations.
@@ -632,98 +632,8 @@ Proof.
   rewrite E in H1. rewrite H1 in H2. congruence.
 Qed.
 
-(* ---- print then re-parse ---- *)
-Section Round.
-Variable optok : string -> token.
-Local Notation flat_ok := (flat_ok T optok).
-Local Notation embed := (embed optok).
-
-Lemma embed_yield : forall t, flat_ok t -> yield (embed t) = flatten optok t.
-Proof.
-  induction t using tree_ind'; intros Hok'.
-  - destruct k; simpl in *; try reflexivity; try contradiction.
-    destruct (is_neg v); reflexivity.
-  - simpl in *. destruct Hok' as [_ [_ Hx]]. rewrite (IHt Hx). reflexivity.
-  - simpl in *. destruct Hok' as [_ [_ [Hl Hr]]]. rewrite (IHt1 Hl), (IHt2 Hr).
-    unfold LPt, LP, RPt, RP. simpl. rewrite <- app_assoc. reflexivity.
-  - destruct args as [|a [|b [|c [|d args]]]]; simpl in Hok'; try contradiction.
-    destruct Hok' as [_ [_ [Ha [Hb Hc]]]].
-    inversion H as [|? ? Pa H1]; subst. inversion H1 as [|? ? Pb H2]; subst.
-    inversion H2 as [|? ? Pc H3]; subst.
-    simpl. rewrite (Pa Ha), (Pb Hb), (Pc Hc).
-    unfold LPt, LP, RPt, RP, CMt, CM.
-    repeat (rewrite <- app_assoc; simpl). reflexivity.
-  - simpl in Hok'. contradiction.
-Qed.
-
-Lemma embed_erase : forall t, flat_ok t -> erase (embed t) = t.
-Proof.
-  induction t using tree_ind'; intros Hok'.
-  - destruct k; simpl in *; try reflexivity; try contradiction.
-    + destruct v as [|c v]; [reflexivity|]. simpl.
-      destruct (Ascii.eqb_spec c "-"%char); [subst; reflexivity | reflexivity].
-    + destruct Hok' as [_ Hv]. rewrite Hv. reflexivity.
-    + rewrite <- Hok'. reflexivity.
-  - simpl in *. destruct Hok' as [_ [Hv Hx]]. rewrite Hv, (IHt Hx). reflexivity.
-  - simpl in *. destruct Hok' as [Hc [Hv [Hl Hr]]]. unfold bin_class in Hc.
-    destruct (pt_bin T (tty (optok op))) as [[[c' a] lv]|]; [|discriminate].
-    inversion Hc; subst. rewrite Hv, (IHt1 Hl), (IHt2 Hr). reflexivity.
-  - destruct args as [|a [|b [|c [|d args]]]]; simpl in Hok'; try contradiction.
-    destruct Hok' as [_ [Hv [Ha [Hb Hc]]]].
-    inversion H as [|? ? Pa H1]; subst. inversion H1 as [|? ? Pb H2]; subst.
-    inversion H2 as [|? ? Pc H3]; subst.
-    simpl. rewrite Hv, (Pa Ha), (Pb Hb), (Pc Hc). reflexivity.
-  - simpl in Hok'. contradiction.
-Qed.
-
-(* images of embed are atoms, parenthesised, or ite(...) : closed on both
-   edges *)
-Lemma embed_fits : forall t m, fits m (embed t).
-Proof.
-  destruct t as [k v|op x|c op l r|op args|xs]; intros; simpl; auto.
-  - destruct k; simpl; auto. destruct (is_neg v); simpl; auto.
-  - destruct args as [|a [|b [|c [|d args]]]]; simpl; auto.
-Qed.
-
-Lemma embed_rok : forall t o, not_dots o -> rok o (embed t).
-Proof.
-  destruct t as [k v|op x|c op l r|op args|xs]; intros; simpl; auto.
-  - destruct k; simpl; auto. destruct (is_neg v); simpl; auto.
-  - destruct args as [|a [|b [|c [|d args]]]]; simpl; auto.
-Qed.
-
-Lemma embed_wf_respects : forall t, flat_ok t -> wf (embed t) /\ respects (embed t).
-Proof.
-  induction t using tree_ind'; intros Hok'.
-  - destruct k; simpl in *; auto; try contradiction.
-    + destruct (is_neg v); simpl; auto.
-    + tauto.
-  - simpl in *. destruct Hok' as [Hp [_ Hx]]. destruct (IHt Hx) as [W R].
-    repeat split; auto using embed_fits.
-  - simpl in *. destruct Hok' as [Hc [_ [Hl Hr]]].
-    destruct (IHt1 Hl) as [W1 R1]. destruct (IHt2 Hr) as [W2 R2].
-    assert (Hb : pt_bin T (tty (optok op)) <> None).
-    { unfold bin_class in Hc. destruct (pt_bin T (tty (optok op))); congruence. }
-    repeat split; auto using embed_fits.
-    apply embed_rok. simpl.
-    apply (op_not_nonop (optok op) "DOTS"); [simpl; tauto | left; assumption].
-  - destruct args as [|a [|b [|c [|d args]]]]; simpl in Hok'; try contradiction.
-    destruct Hok' as [Hk [_ [Ha [Hb Hc]]]].
-    inversion H as [|? ? Pa H1]; subst. inversion H1 as [|? ? Pb H2]; subst.
-    inversion H2 as [|? ? Pc H3]; subst.
-    destruct (Pa Ha), (Pb Hb), (Pc Hc). simpl. tauto.
-  - simpl in Hok'. contradiction.
-Qed.
-
-(* roundtrip: flatten prints a token sequence that parses back to the tree *)
-Theorem roundtrip : forall t, flat_ok t -> parse T (flatten optok t) = Some t.
-Proof.
-  intros t H. destruct (embed_wf_respects t H) as [W R].
-  rewrite <- (embed_yield t H). rewrite (prec_determines_tree _ W R).
-  rewrite (embed_erase t H). reflexivity.
-Qed.
-
-End Round.
+(* print then re-parse: RoundtripProofs.v (through the surface trees of the
+   whole grammar, PrecFullSpec.v) *)
 
 End Prec.
 
